@@ -1,329 +1,674 @@
 """C16 - Configuration values come from defaults, files and command line in that order.
 
-R16.1 layering order, R16.2 conversion soundness per option class, R16.3 typed
-defaults / flags / interpolation-safe strings, R16.4 absent means untouched,
-R16.5 interpolation on access, R16.6 key identity from files, R16.7 one parser
-per file, R16.8 later sources override dictionary entries."""
+The configuration is *built* by interpreting plasTeX.Config.defaultConfig and the renderer's addConfig on a heap (no
+execution): the result is the table of sections and option objects, each an instance of its option class.  All rules are
+then decided on that heap:
+
+R16.1 layering order in client.main (events of an interpretation with private helpers folded in),
+R16.2 conversion from file text per option, R16.3 typed defaults / flags / interpolation-safe strings,
+R16.4 command line: registration and read-back per option through a small model of argparse (absent means untouched),
+R16.5 interpolation on access, R16.6 files: scripted parser - key identity, one application per file, later file wins,
+R16.7 layering of values: defaults < files < command line for every option kind."""
 import ast
+import copy
 import re
 
-from .. import flow
+from .. import absint as A
 from .. import model as M
 from ..report import AnalysisError, need
 from ..util import text
+from . import domheap as D
 
 CM = 'plasTeX.ConfigManager'
-PARSING_TYPES = {'str', 'int', 'float'}
 
 
 def check(chk):
     m = chk.model
     r161(chk, m)
-    opts = collect_options(chk, m)
-    r162(chk, m, opts)
-    r163(chk, m, opts)
-    r164(chk, m)
-    r165(chk, m)
-    r166_7(chk, m)
-    r168(chk, m)
+    cfg = build_config(chk, m)
+    opts = options_of(cfg)
+    need(len(opts) >= 50, 'only %d options found in the interpreted configuration' % len(opts))
+    r163(chk, m, cfg, opts)
+    r162(chk, m, cfg, opts)
+    r164(chk, m, cfg, opts)
+    r165(chk, m, cfg, opts)
+    r166(chk, m, cfg, opts)
+    r167(chk, m, cfg, opts)
     chk.decline('the value x source product for concrete configurations (runtime)')
 
 
+# ---------------------------------------------------------------------------
+class CfgHooks(D.DomHooks):
+    """argparse groups record their registrations; ConfigParser is a scripted parser (sections, items, optionxform)."""
+
+    def __init__(self, model, cls=None, files=None):
+        D.DomHooks.__init__(self, model, cls or model.cls(CM, 'ConfigManager'))
+        self.files = files or {}
+
+    def lookup(self, interp, name, state):
+        if name == 'ConfigParser.BOOLEAN_STATES':
+            import configparser
+            return dict(configparser.ConfigParser.BOOLEAN_STATES)
+        return None
+
+    def call(self, interp, node, fname, args, kwargs, state):
+        if fname == 'print' or re.match(r'log\.\w+$', fname):
+            return A.NONE
+        if fname == 'shlex.split' and len(args) == 1 and isinstance(args[0], str):
+            import shlex
+            try:
+                return shlex.split(args[0])
+            except ValueError:
+                state.env['__exc'] = 'ValueError'
+                return A.TOP
+        if fname in ('ConfigParser', 'configparser.ConfigParser', 'RawConfigParser', 'configparser.RawConfigParser'):
+            k = state.env.get('__nparsers', 0)
+            state.env['__nparsers'] = k + 1
+            return A.Obj('parser%d' % k, {'__content': {}, 'optionxform': 'default(lower)', '__interp': kwargs.get('interpolation', 'basic')})
+        if isinstance(node.func, ast.Attribute):
+            attr = node.func.attr
+            recv = interp.ev(node.func.value, state) if isinstance(node.func.value, (ast.Name, ast.Attribute)) else None
+            if isinstance(recv, A.Obj) and recv.label.startswith('parser') and '__content' in recv.attrs:
+                content = recv.attrs['__content']
+                xf = recv.attrs.get('optionxform')
+                keep = xf is str or (isinstance(xf, A.Sym) and xf.label.startswith('func:<lambda'))
+                if attr in ('read', 'read_file', 'read_string') and args:
+                    names = args[0] if isinstance(args[0], list) else [args[0]]
+                    for nm in names:
+                        for sec, items in self.files.get(nm, []):
+                            d = content.setdefault(sec, {})
+                            for kk, vv in items:
+                                d[kk if keep else kk.lower()] = vv
+                    return list(n2 for n2 in names if n2 in self.files)
+                if attr == 'sections' and not args:
+                    return list(content.keys())
+                if attr == 'items' and len(args) == 1 and isinstance(args[0], str):
+                    if args[0] not in content:
+                        state.env['__exc'] = 'NoSectionError'
+                        return A.TOP
+                    return [(k2, v2) for k2, v2 in content[args[0]].items()]
+                if attr == 'has_section' and len(args) == 1:
+                    return args[0] in content
+                if attr == 'options' and len(args) == 1 and args[0] in content:
+                    return list(content[args[0]].keys())
+                if attr == 'get' and len(args) == 2 and args[0] in content and args[1] in content[args[0]]:
+                    return content[args[0]][args[1]]
+            if isinstance(recv, A.Obj) and recv.label.startswith('argparse'):
+                if attr == 'add_argument_group':
+                    return A.Obj('argparse-group', {})
+                if attr == 'add_argument':
+                    state.env.setdefault('__regs', []).append((list(args), dict(kwargs)))
+                    return A.NONE
+        return D.DomHooks.call(self, interp, node, fname, args, kwargs, state)
+
+
+def interp_fn(m, fn, env, files=None, cls=None, inline=12, max_iter=24, filt=None):
+    h = CfgHooks(m, cls, files)
+    if filt is not None:
+        h.should_inline = filt
+    it = A.Interp(model=m, scope=fn, hooks=h, max_iter=max_iter, exc_edges=False, inline=inline, heap=True, precise_exc=True, max_states=20000)
+    it.run_init = True
+    outs = it.run_function(fn, env=env)
+    if it.imprecise:
+        raise D.Imprecise('; '.join(sorted(set(it.imprecise))[:3]))
+    if it.unknown_branches:
+        raise D.Imprecise('the outcome of a test is not determined on this heap: ' + '; '.join(sorted(set(it.unknown_branches))[:3]))
+    return outs
+
+
+def build_config(chk, m):
+    """The configuration object as defaultConfig() and the HTML5 renderer's addConfig() build it (interpreted)."""
+    fn = m.module('plasTeX.Config').functions.get('defaultConfig')
+    need(fn is not None, 'plasTeX.Config.defaultConfig not found')
+    chk.analysed(fn)
+    outs = interp_fn(m, fn, {'loadConfigFiles': False})
+    rets = [(s, v) for kind, s, v in outs if kind == 'return']
+    need(len(rets) == 1 and isinstance(rets[0][1], A.Obj) and isinstance(rets[0][1].attrs.get('__dict'), dict),
+         'defaultConfig() does not come back with one configuration object (%s)' % [(k, v) for k, s, v in outs][:3])
+    cfg = rets[0][1]
+    add = m.module('plasTeX.Renderers.HTML5.Config').functions.get('addConfig')
+    need(add is not None, 'plasTeX.Renderers.HTML5.Config.addConfig not found')
+    chk.analysed(add)
+    outs = interp_fn(m, add, {'config': cfg})
+    rets = [s for kind, s, v in outs if kind == 'return']
+    need(len(rets) == 1, 'HTML5 addConfig does not have one normal outcome')
+    cfg = rets[0].env['config']
+    for mod in ('plasTeX.Config', 'plasTeX.Renderers.HTML5.Config', CM):
+        chk.files.add(m.module(mod).path.replace(chk.model.root.rstrip('/') + '/', ''))
+    return cfg
+
+
+def options_of(cfg):
+    out = []
+    for sname, sec in cfg.attrs['__dict'].items():
+        data = sec.attrs.get('data') if isinstance(sec, A.Obj) else None
+        need(isinstance(data, dict), 'section %s has no option table' % sname)
+        for key, o in data.items():
+            need(isinstance(o, A.Obj) and isinstance(o.cls, M.ClassInfo), 'option %s.%s is not an option object' % (sname, key))
+            out.append((sname, key, o))
+    return out
+
+
+def kind_of(m, o):
+    names = [getattr(k, 'name', '') for k in m.mro(o.cls)]
+    for k in ('BooleanOption', 'MultiStringOption', 'DictOption', 'IntegerOption', 'FloatOption', 'StringOption'):
+        if k in names:
+            return k
+    return 'ConfigOption'
+
+
+def entry_type(m, o):
+    """int / float / str for a dictionary option, from the type argument of its DictOption base."""
+    for k in m.mro(o.cls):
+        if isinstance(k, M.ClassInfo):
+            for b in k.node.bases:
+                if isinstance(b, ast.Subscript) and text(b.value).endswith('DictOption'):
+                    return {'int': int, 'float': float, 'str': str}.get(text(b.slice))
+    return None
+
+
+def where_of(chk, o):
+    return chk.where(o.cls)
+
+
+def find_opt(cfg, sname, key):
+    return cfg.attrs['__dict'][sname].attrs['data'][key]
+
+
+def show(v):
+    if isinstance(v, A.Obj):
+        return '<%s>' % v.label
+    return repr(v)
+
+
+# ---------------------------------------------------------------------------
 def r161(chk, m):
-    R = chk.rule('R16.1', 'layering order in client.main: defaults (+ renderer sections) -> registerArgparse -> parse_args -> '
-                 'read(files) -> updateFromDict, on every path', 1)
-    fn = m.module('plasTeX.client').functions.get('main')
+    R = chk.rule('R16.1', 'layering order in client.main, by interpretation with its private helpers folded in: defaults and renderer '
+                 'sections exist before the command line is declared and parsed; files named on the command line are read after '
+                 'that and before the command-line values are applied; then the run starts - with and without --config', 2)
+    mod = m.module('plasTeX.client')
+    fn = mod.functions.get('main')
     need(fn is not None, 'client.main not found')
     chk.analysed(fn)
-    order = ['defaultConfig', 'collect_renderer_config', 'config.registerArgparse', 'parser.parse_args', 'config.read', 'config.updateFromDict', 'run']
-    idx = {n: i for i, n in enumerate(order)}
 
-    def transfer(n, v):
-        if isinstance(n, ast.Call) and M.call_name(n) in idx:
-            seq = v + (idx[M.call_name(n)],)
-            return seq
-        return v
-    normal, raised = flow.function_exits(fn.node, (), transfer)
-    ok = bool(normal)
-    for seq in normal:
-        need_all = [0, 1, 2, 3, 5, 6]
-        ok = ok and list(seq) == sorted(seq) and all(x in seq for x in need_all) and len(set(seq)) == len(seq)
-    chk.verdict(R, 'client.main layering', ok,
-                'client.main applies the sources in the order %s (by index into %s): files must be read after the defaults exist '
-                'and before the command line is applied' % (sorted(normal), order), chk.where(fn), str(sorted(normal)))
+    class H(CfgHooks):
+        def __init__(self, model, data):
+            CfgHooks.__init__(self, model)
+            self.data = data
 
-
-def local_classes(mod):
-    """ClassDef nodes at module level and inside function bodies."""
-    out = []
-    for n in ast.walk(mod.tree):
-        if isinstance(n, ast.ClassDef):
-            out.append(n)
-    return out
-
-
-def option_kind(m, cdef, mod, local):
-    """Walk the bases up to a ConfigManager class; returns list of class names (local ClassDefs first)."""
-    chain = []
-    seen = set()
-    cur = cdef
-    while cur is not None and id(cur) not in seen:
-        seen.add(id(cur))
-        chain.append(cur)
-        nxt = None
-        for b in cur.bases:
-            bn = text(b.value if isinstance(b, ast.Subscript) else b)
-            if bn in local:
-                nxt = local[bn]
-                break
-            try:
-                c = m.cls(CM, bn)
-                nxt = c.node
-                break
-            except AnalysisError:
-                continue
-        cur = nxt
-    return chain
-
-
-def collect_options(chk, m):
-    """All option instantiations  section['key'] = XOption(desc, options=..., default=...)."""
-    out = []
-    for modname in ('plasTeX.Config', 'plasTeX.Renderers.HTML5.Config'):
-        mod = m.module(modname)
-        chk.files.add(mod.path.replace('/repo/', ''))
-        local = {c.name: c for c in local_classes(mod)}
-        for n in ast.walk(mod.tree):
-            if isinstance(n, ast.Assign) and isinstance(n.targets[0], ast.Subscript) and isinstance(n.value, ast.Call) \
-               and text(n.value.func).endswith('Option'):
-                key = m.eval_const(mod, n.targets[0].slice)
-                kw = {k.arg: k.value for k in n.value.keywords}
-                args = list(n.value.args)
-                options = kw.get('options', args[1] if len(args) > 1 else None)
-                default = kw.get('default', args[2] if len(args) > 2 else None)
-                out.append({'mod': mod, 'node': n, 'section': text(n.targets[0].value), 'key': key, 'cls': text(n.value.func),
-                            'options': m.eval_const(mod, options) if options is not None else None, 'default': default, 'local': local})
-    need(len(out) >= 50, 'only %d option declarations found' % len(out))
-    return out
-
-
-def resolve_method(m, chain, name):
-    for c in chain:
-        for st in c.body:
-            if isinstance(st, ast.FunctionDef) and st.name == name:
-                return c, st
-    return None, None
-
-
-def r162(chk, m, opts):
-    R = chk.rule('R16.2', 'conversion soundness: an option class that inherits the generic conversion valueType()(string) must have a '
-                 'value type whose constructor parses its text (str, int, float); booleans parse yes/no, true/false, on/off, 1/0; '
-                 'list options extend, dictionary options set per entry - consistently for files and command line', 8)
-    classes = {}
-    for o in opts:
-        cname = o['cls']
-        if cname in classes:
+        def call(self, interp, node, fname, args, kwargs, state):
+            ev = state.env.setdefault('__events', [])
+            if fname == 'defaultConfig':
+                ev.append('defaults')
+                return A.Obj('config', {})
+            if fname == 'collect_renderer_config':
+                ev.append('renderer-sections')
+                return A.NONE
+            if fname in ('ArgumentParser', 'argparse.ArgumentParser'):
+                return A.Obj('argparse-parser', {})
+            if fname == 'vars' and len(args) == 1 and isinstance(args[0], A.Obj) and args[0].label == 'namespace':
+                return dict(self.data)
+            if fname == 'run':
+                ev.append('run(%s)' % ', '.join(show(a) for a in args))
+                return A.NONE
+            if isinstance(node.func, ast.Attribute):
+                recv = interp.ev(node.func.value, state) if isinstance(node.func.value, ast.Name) else None
+                if isinstance(recv, A.Obj) and recv.label == 'config':
+                    ev.append('%s(%s)' % (node.func.attr, ', '.join(show(a) if not isinstance(a, dict) else 'data' for a in args)))
+                    return A.NONE
+                if isinstance(recv, A.Obj) and recv.label == 'argparse-parser' and node.func.attr in ('parse_args', 'parse_known_args'):
+                    ev.append('parse')
+                    return A.Obj('namespace', {})
+            return CfgHooks.call(self, interp, node, fname, args, kwargs, state)
+    for label, data, want in (('with --config', {'config': ['a.ini', 'b.ini'], 'file': 'doc.tex'},
+                               "defaults renderer-sections registerArgparse(<argparse-parser>) parse read(['a.ini', 'b.ini']) updateFromDict(data) run('doc.tex', <config>)"),
+                              ('without --config', {'config': None, 'file': 'doc.tex'},
+                               "defaults renderer-sections registerArgparse(<argparse-parser>) parse updateFromDict(data) run('doc.tex', <config>)")):
+        h = H(m, data)
+        h.should_inline = lambda fname, node, info: info is None or (getattr(node, 'name', '').startswith('_') and info.cls is None)
+        it = A.Interp(model=m, scope=fn, hooks=h, max_iter=8, exc_edges=False, inline=6, heap=True, precise_exc=True)
+        outs = it.run_function(fn, env={'argv': ['doc.tex']})
+        if it.imprecise or it.unknown_branches:
+            chk.undecided(R, 'client.main layering ' + label, '; '.join((it.imprecise + it.unknown_branches)[:3]), chk.where(fn))
             continue
-        cdef = o['local'].get(cname)
-        if cdef is None:
-            try:
-                cdef = m.cls(CM, cname).node
-            except AnalysisError:
-                raise AnalysisError('option class %s not resolvable' % cname)
-        classes[cname] = (cdef, o)
-    for cname, (cdef, o) in sorted(classes.items()):
-        chain = option_kind(m, cdef, o['mod'], o['local'])
-        names = [c.name for c in chain]
-        owner, sfs = resolve_method(m, chain, 'setFromString')
-        need(sfs is not None, 'setFromString not resolvable for %s' % cname)
-        generic = owner.name == 'ConfigOption'
-        # value type from the Generic argument of the first base that has one
-        vtype = None
-        for c in chain:
-            for b in c.bases:
-                if isinstance(b, ast.Subscript) and vtype is None:
-                    vtype = text(b.slice)
-        where = '%s:%d (%s)' % (o['mod'].path.replace('/repo/', ''), cdef.lineno, cname)
-        if generic:
-            chk.verdict(R, 'option class %s conversion' % cname, vtype in PARSING_TYPES,
-                        'option class %s (value type %s) inherits the generic conversion %s(string): for this type the constructor '
-                        'does not parse the textual forms (bool("no") is True)' % (cname, vtype, vtype), where, 'generic %s()' % vtype)
-        elif 'BooleanOption' in names and owner.name == 'BooleanOption':
-            src = text(sfs)
-            ok = 'BOOLEAN_STATES' in src or all(w in src for w in ("'yes'", "'no'", "'true'", "'false'", "'on'", "'off'"))
-            ok = ok and '.lower()' in src
-            chk.verdict(R, 'option class %s conversion' % cname, ok,
-                        'BooleanOption.setFromString must parse yes/no, true/false, on/off, 1/0 case-insensitively', where, 'boolean table')
-        elif 'MultiStringOption' in names:
-            src = text(sfs)
-            _, ufd = resolve_method(m, chain, 'updateFromDict')
-            ok = 'self.value.extend(' in src and 'self.value.extend(' in text(ufd)
-            chk.verdict(R, 'option class %s conversion' % cname, ok, 'list options must extend the current value from files and from the command line', where, 'extend/extend')
-        elif 'DictOption' in names:
-            src = text(sfs)
-            o2, ufd = resolve_method(m, chain, 'updateFromDict')
-            e_owner, efs = resolve_method(m, chain, 'entryFromString')
-            ok = 'self.set(' in src and ('self.set(' in text(ufd) or 'self.value[' in text(ufd)) and efs is not None and e_owner.name != 'DictOption'
-            # entry conversion parses: int(entry)/float(entry)/entry
-            conv = [text(r.value) for r in ast.walk(efs) if isinstance(r, ast.Return)] if efs is not None else []
-            ok = ok and conv and all(re.fullmatch(r'entry|int\(entry\)|float\(entry\)|str\(entry\)', c) for c in conv)
-            chk.verdict(R, 'option class %s conversion' % cname, ok,
-                        'dictionary option %s: entries must be set one by one from both sources and converted by a parsing constructor (%s)' % (cname, conv),
-                        where, 'set per entry, %s' % conv)
-        else:
-            raise AnalysisError('option class %s overrides setFromString in an unknown way: re-confirm R16.2' % cname)
+        got = {'%s: %s' % (kind, ' '.join(s.env.get('__events', []))) for kind, s, v in outs}
+        chk.decide(R, 'client.main layering ' + label, got, {'return: ' + want}, 'client.main applies the sources as %s; expected %s - files must '
+                   'be read after the defaults exist and before the command line is applied' % (sorted(got), want), chk.where(fn), want)
 
 
-def r163(chk, m, opts):
-    R = chk.rule('R16.3', 'every option: the literal default has the declared type; string defaults are well formed for '
-                 '%-interpolation; command-line names are unique; booleans have an enable flag or an enable/!disable pair', 50)
-    want = {'StringOption': str, 'IntegerOption': int, 'FloatOption': float, 'BooleanOption': bool, 'MultiStringOption': list}
-    dests = {}
-    flags = {}
-    keys = {o['key'] for o in opts}
-    for o in opts:
-        mod = o['mod']
-        where = '%s:%d' % (mod.path.replace('/repo/', ''), o['node'].lineno)
-        d = m.eval_const(mod, o['default']) if o['default'] is not None else M.UNKNOWN
-        cname = o['cls']
-        t = want.get(cname, dict)
-        ok = not M.is_unknown(d) and type(d) is t
-        msg = 'default %r is not a %s' % (d, t.__name__)
+# ---------------------------------------------------------------------------
+WANT_TYPE = {'StringOption': str, 'IntegerOption': int, 'FloatOption': float, 'BooleanOption': bool, 'MultiStringOption': list, 'DictOption': dict}
+
+
+def r163(chk, m, cfg, opts):
+    R = chk.rule('R16.3', 'every option of the interpreted configuration: the default has the type of its option class; string defaults are '
+                 'well formed for %-interpolation; command-line names and flags are unique; booleans have an enable flag and at most '
+                 'a !disable flag', 50)
+    keys = {k for _, k, _ in opts}
+    dests, flags = {}, {}
+    for sname, key, o in opts:
+        kind = kind_of(m, o)
+        d = o.attrs.get('value')
+        t = WANT_TYPE.get(kind)
+        ok = t is not None and type(d) is t
+        msg = 'default %r is not a %s' % (d, t.__name__ if t else '?')
         if ok and isinstance(d, str):
             rest = re.sub(r'%%|%\((\w[\w-]*)\)s', lambda mo: '' if mo.group(1) is None or mo.group(1) in keys else '%BAD', d)
             if '%' in rest:
-                ok = False
-                msg = 'string default %r is not well formed for %%-interpolation (only %%%% and %%(known-option)s)' % d
-        optstr = o['options']
-        if not isinstance(optstr, str) or not optstr.strip():
-            ok = False
-            msg = 'no command-line option string'
+                ok, msg = False, 'string default %r is not well formed for %%-interpolation (only %%%% and %%(known-option)s)' % d
+        fl = o.attrs.get('options')
+        name = o.attrs.get('name')
+        if not (isinstance(fl, list) and fl and all(isinstance(x, str) and x for x in fl) and isinstance(name, str) and name):
+            ok, msg = False, 'no command-line option string (%r, name %r)' % (fl, name)
         else:
-            parts = optstr.split(' ')
-            dest = parts[0].lstrip('-')
-            dests.setdefault(dest, []).append(where)
-            for p in parts:
-                flags.setdefault(p.lstrip('!'), []).append(where)
-            if cname == 'BooleanOption':
-                en = [p for p in parts if not p.startswith('!')]
-                dis = [p for p in parts if p.startswith('!')]
+            dests.setdefault(name, []).append('%s.%s' % (sname, key))
+            for p in fl:
+                flags.setdefault(p.lstrip('!'), []).append('%s.%s' % (sname, key))
+            if kind == 'BooleanOption':
+                en = [p for p in fl if not p.startswith('!')]
+                dis = [p for p in fl if p.startswith('!')]
                 if not en or any(not p.startswith('-') for p in en) or any(not p[1:].startswith('-') for p in dis):
-                    ok = False
-                    msg = 'boolean flags %r need an enable flag and optionally a !disable flag' % optstr
-        chk.verdict(R, 'option %s[%s]' % (o['section'], o['key']), ok, 'option %r: %s' % (o['key'], msg), where, '%s default %r' % (cname, d))
+                    ok, msg = False, 'boolean flags %r need an enable flag and optionally a !disable flag' % fl
+            elif any(not p.startswith('-') for p in fl):
+                ok, msg = False, 'flags %r must start with -' % fl
+        chk.verdict(R, 'option %s[%s]' % (sname, key), ok, 'option %r: %s' % (key, msg), where_of(chk, o), '%s default %r' % (kind, d))
+    # list and dictionary values are per option and per configuration: no object shared between options, no mutable
+    # default argument in a constructor (that object would be shared by every configuration built in the process)
+    seen = {}
+    for sname, key, o in opts:
+        v = o.attrs.get('value')
+        if isinstance(v, (list, dict)):
+            seen.setdefault(id(v), []).append('%s.%s' % (sname, key))
+    shared = [v for v in seen.values() if len(v) > 1]
+    chk.verdict(R, 'list and dictionary defaults are one object per option', not shared,
+                'options share one value object: %s - extending one extends the others' % shared, 'plasTeX/Config.py')
+    ctors = {}
+    for sname, key, o in opts:
+        for k in m.mro(o.cls):
+            if isinstance(k, M.ClassInfo) and '__init__' in k.methods:
+                ctors[k.fullname] = k.methods['__init__']
+    for cname, f in sorted(ctors.items()):
+        chk.analysed(f)
+        muts = [text(dv) for dv in list(f.node.args.defaults) + [x for x in f.node.args.kw_defaults if x is not None]
+                if isinstance(dv, (ast.List, ast.Dict, ast.Set, ast.ListComp, ast.DictComp)) or
+                (isinstance(dv, ast.Call) and text(dv.func) in ('list', 'dict', 'set'))]
+        chk.verdict(R, '%s has no mutable default argument' % f.fullname, not muts,
+                    '%s has the mutable default(s) %s: every option built without that argument, in every configuration of the '
+                    'process, shares the one object, which setFromString/updateFromDict extend in place' % (f.fullname, muts), chk.where(f))
     dup = {k: v for k, v in dests.items() if len(v) > 1}
     chk.verdict(R, 'command-line destinations unique', not dup, 'options share a destination name: %s' % dup, 'plasTeX/Config.py')
     dupf = {k: v for k, v in flags.items() if len(v) > 1}
     chk.verdict(R, 'command-line flags unique', not dupf, 'the same flag is registered twice: %s' % dupf, 'plasTeX/Config.py')
 
 
-def r164(chk, m):
-    R = chk.rule('R16.4', 'absent means untouched: store_true/store_false flags are registered with default=None and every '
-                 'updateFromDict ignores None', 4)
-    n = 0
-    for modname in (CM, 'plasTeX.Config', 'plasTeX.Renderers.HTML5.Config'):
-        mod = m.module(modname)
-        for c in ast.walk(mod.tree):
-            if isinstance(c, ast.Call) and text(c.func).endswith('add_argument'):
-                kw = {k.arg: text(k.value) for k in c.keywords}
-                if kw.get('action') in ("'store_true'", "'store_false'"):
-                    n += 1
-                    chk.verdict(R, '%s add_argument(%s)' % (modname, kw.get('action')), kw.get('default') == 'None',
-                                'a %s flag is registered with default=%s: an absent flag would overwrite the file value' % (kw.get('action'), kw.get('default')),
-                                '%s:%d' % (mod.path.replace('/repo/', ''), c.lineno))
-                elif 'default' in kw and kw['default'] != 'None':
-                    n += 1
-                    chk.fail(R, '%s add_argument default' % modname, 'add_argument with default=%s: argparse defaults would override file values' % kw['default'],
-                             '%s:%d' % (mod.path.replace('/repo/', ''), c.lineno))
-        for f in ast.walk(mod.tree):
-            if isinstance(f, ast.FunctionDef) and f.name == 'updateFromDict' and any(a.arg == 'data' for a in f.args.args):
-                src = text(f)
-                if 'for option in' in src or 'for section in' in src:
-                    continue      # delegating containers
-                n += 1
-                ok = re.search(r'is not None', src) is not None
-                chk.verdict(R, '%s updateFromDict@%d' % (modname, f.lineno), ok,
-                            'updateFromDict does not skip absent (None) command-line values', '%s:%d' % (mod.path.replace('/repo/', ''), f.lineno))
-    need(n >= 4, 'flag registrations / updateFromDict implementations not found')
+# ---------------------------------------------------------------------------
+FILE_SAMPLES = {
+    'StringOption': [('some text', 'some text'), ('50%% done', '50%% done')],
+    'IntegerOption': [('42', 42), ('-3', -3)],
+    'FloatOption': [('1.5', 1.5), ('2', 2.0)],
+    'BooleanOption': [('yes', True), ('no', False), ('true', True), ('false', False), ('on', True), ('off', False), ('1', True), ('0', False),
+                      ('Yes', True), ('FALSE', False), ('No', False)],
+}
 
 
-def r165(chk, m):
-    R = chk.rule('R16.5', 'interpolation on access: ConfigSection.__getitem__ applies % with the wrapper to every string and to every '
-                 'item of a list of strings, unconditionally (so %% always becomes %), and returns other values unchanged', 2)
-    fn = m.func(CM, 'ConfigSection.__getitem__')
+def after_call(m, o, meth, args, files=None):
+    """Interpret o.meth(*args) on a private copy of the option; set of descriptions of the resulting value."""
+    fn = m.find_method(o.cls, meth)
+    need(fn is not None, '%s.%s not found' % (o.cls.fullname, meth))
+    oc = copy.deepcopy(o)
+    env = {'self': oc, '__o': oc}
+    params = [a.arg for a in fn.node.args.args[1:]]
+    for p, a in zip(params, args):
+        env[p] = a
+    outs = interp_fn(m, fn, env, files=files, cls=o.cls)
+    got = set()
+    for kind, s, v in outs:
+        if kind == 'return':
+            val = s.env['__o'].attrs.get('value')
+            got.add('%s %r' % (type(val).__name__, val) if A.is_concrete(val) else 'TOP')
+        else:
+            got.add('raises %s' % (v,))
+    return fn, got
+
+
+def r162(chk, m, cfg, opts):
+    R = chk.rule('R16.2', 'conversion from file text, interpreted per option: strings stay as written, integers and floats are parsed, '
+                 'booleans accept yes/no, true/false, on/off, 1/0 in any case (and nothing else), list options extend their value with '
+                 'the shell-split words, dictionary options set one converted entry per key=value', 50)
+    done = {}
+    for sname, key, o in opts:
+        kind = kind_of(m, o)
+        sig = (o.cls.fullname, type(o.attrs.get('value')).__name__)
+        label = 'option %s[%s] from file text' % (sname, key)
+        if sig in done:
+            # same class, same kind of default: same verdict (recorded once per option so that every option is an instance)
+            res = done[sig]
+            if res is None:
+                chk.undecided(R, label, 'see the first option of class %s' % o.cls.name, where_of(chk, o))
+            else:
+                chk.verdict(R, label, res[0], res[1], where_of(chk, o), 'as %s' % res[2])
+            continue
+        try:
+            bad = []
+            if kind in FILE_SAMPLES:
+                for txt_, want in FILE_SAMPLES[kind]:
+                    fn, got = after_call(m, o, 'setFromString', [txt_])
+                    chk.analysed(fn)
+                    if got != {'%s %r' % (type(want).__name__, want)}:
+                        bad.append('%r gives %s (expected %r)' % (txt_, sorted(got), want))
+                if kind == 'BooleanOption':
+                    fn, got = after_call(m, o, 'setFromString', ['maybe'])
+                    if not all(g.startswith('raises') for g in got):
+                        bad.append("'maybe' gives %s (expected an error)" % sorted(got))
+            elif kind == 'MultiStringOption':
+                o2 = copy.deepcopy(o)
+                o2.attrs['value'] = ['first']
+                fn, got = after_call(m, o2, 'setFromString', ['b "c d" e'])
+                chk.analysed(fn)
+                if got != {"list %r" % (['first', 'b', 'c d', 'e'],)}:
+                    bad.append("'b \"c d\" e' on ['first'] gives %s (expected the value extended by b, 'c d', e)" % sorted(got))
+            elif kind == 'DictOption':
+                et = entry_type(m, o)
+                need(et is not None, 'entry type of dictionary option %s not found' % o.cls.name)
+                o2 = copy.deepcopy(o)
+                sample = {int: ('5', 5, '6', 6), float: ('1.5', 1.5, '2', 2.0), str: ('x y', 'x y', 'z', 'z')}[et]
+                o2.attrs['value'] = {'old': sample[1]}
+                fn, got = after_call(m, o2, 'setFromString', ['Key = %s, other=%s' % (sample[0], sample[2])])
+                chk.analysed(fn)
+                want = {'old': sample[1], 'Key': sample[1], 'other': sample[3]}
+                if got != {'dict %r' % (want,)}:
+                    bad.append('%r gives %s (expected %r)' % ('Key = %s, other=%s' % (sample[0], sample[2]), sorted(got), want))
+            else:
+                raise AnalysisError('option class %s is of no known kind: re-confirm R16.2' % o.cls.name)
+            res = (not bad, 'option class %s: %s' % (o.cls.name, '; '.join(bad)), kind)
+        except D.Imprecise as e:
+            done[sig] = None
+            chk.undecided(R, label, str(e), where_of(chk, o))
+            continue
+        done[sig] = res
+        chk.verdict(R, label, res[0], res[1], where_of(chk, o), kind)
+
+
+# ---------------------------------------------------------------------------
+def argparse_model(regs, argv):
+    """What argparse would put under each dest for the command line `argv` (list of (flag, [tokens]) occurrences), for the
+    registrations `regs` [(flags, kwargs)].  Only the actions the configuration uses are modelled."""
+    data = {}
+    by_flag = {}
+    for flags, kw in regs:
+        dest = kw.get('dest')
+        if not isinstance(dest, str):
+            raise D.Imprecise('an argument is registered without a known dest: %s' % (flags,))
+        action = kw.get('action', 'store')
+        if action in ('store_true', 'store_false'):
+            data.setdefault(dest, kw.get('default', False if action == 'store_true' else True))
+        elif 'default' in kw:
+            data.setdefault(dest, kw['default'])
+        else:
+            data.setdefault(dest, None)
+        for f in flags:
+            by_flag[f] = (dest, kw)
+    for flag, toks in argv:
+        if flag not in by_flag:
+            raise D.Imprecise('flag %s is not registered' % flag)
+        dest, kw = by_flag[flag]
+        action = kw.get('action', 'store')
+        conv = kw.get('type')
+        if conv is not None and not isinstance(conv, type):
+            raise D.Imprecise('the type= of %s is not determined' % flag)
+
+        def cv(t):
+            return conv(t) if conv is not None else t
+        nargs = kw.get('nargs')
+        if action == 'store_true':
+            data[dest] = True
+        elif action == 'store_false':
+            data[dest] = False
+        elif action == 'store':
+            data[dest] = cv(toks[0]) if nargs is None else [cv(t) for t in toks]
+        elif action == 'append':
+            cur = data.get(dest) or []
+            cur = list(cur)
+            cur.append(cv(toks[0]) if nargs is None else [cv(t) for t in toks])
+            data[dest] = cur
+        else:
+            raise D.Imprecise('argparse action %r is not modelled' % (action,))
+    return data
+
+
+def cmdline_for(m, o, kind):
+    """A command line for the option and the value expected afterwards (given the current value)."""
+    fl = o.attrs['options']
+    cur = o.attrs['value']
+    en = [p for p in fl if not p.startswith('!')]
+    if kind == 'StringOption':
+        return [[(en[0], ['from cli'])]], ['from cli']
+    if kind == 'IntegerOption':
+        return [[(en[0], ['7'])]], [7]
+    if kind == 'FloatOption':
+        return [[(en[0], ['2.5'])]], [2.5]
+    if kind == 'BooleanOption':
+        lines, wants = [[(en[0], [])]], [True]
+        for p in fl:
+            if p.startswith('!'):
+                lines.append([(p[1:], [])])
+                wants.append(False)
+        return lines, wants
+    if kind == 'MultiStringOption':
+        return [[(en[0], ['a', 'b']), (en[0], ['c'])]], [list(cur) + ['a', 'b', 'c']]
+    if kind == 'DictOption':
+        et = entry_type(m, o)
+        if o.cls.name == 'LinksOption':
+            return [[(en[0], ['next', 'Next']), (en[0], ['up', 'u.html', 'Up'])]], [dict(cur, **{'next-title': 'Next', 'up-url': 'u.html', 'up-title': 'Up'})]
+        v = {int: ('4', 4), float: ('0.5', 0.5), str: ('v', 'v')}[et]
+        return [[(en[0], ['Name', v[0]])]], [dict(cur, Name=v[1])]
+    raise AnalysisError('unknown option kind %s' % kind)
+
+
+def registrations(m, o):
+    fn = m.find_method(o.cls, 'registerArgparse')
+    need(fn is not None, '%s.registerArgparse not found' % o.cls.fullname)
+    oc = copy.deepcopy(o)
+    outs = interp_fn(m, fn, {'self': oc, 'group': A.Obj('argparse-group', {})}, cls=o.cls)
+    regs = None
+    for kind, s, v in outs:
+        if kind != 'return':
+            raise D.Imprecise('registerArgparse raises %s' % (v,))
+        r = s.env.get('__regs', [])
+        if regs is not None and repr(r) != repr(regs):
+            raise D.Imprecise('registerArgparse has several outcomes')
+        regs = r
+    return fn, regs or []
+
+
+def r164(chk, m, cfg, opts):
+    R = chk.rule('R16.4', 'command line, per option, through a model of argparse (store, store_true/false, append, nargs, type): what the '
+                 'option registers and what it reads back agree - a flag that is given sets the typed value (lists extend, '
+                 'dictionaries set entries, --x/--no-x set True/False), a flag that is absent leaves the value untouched', 50)
+    for sname, key, o in opts:
+        kind = kind_of(m, o)
+        label = 'option %s[%s] from the command line' % (sname, key)
+        try:
+            rfn, regs = registrations(m, o)
+            chk.analysed(rfn)
+            lines, wants = cmdline_for(m, o, kind)
+            bad = []
+            # absent: nothing given
+            data = argparse_model(regs, [])
+            ufn, got = after_call(m, o, 'updateFromDict', [data])
+            chk.analysed(ufn)
+            cur = o.attrs['value']
+            if got != {'%s %r' % (type(cur).__name__, cur)}:
+                bad.append('with the flag absent the value becomes %s (it was %r)' % (sorted(got), cur))
+            for argv, want in zip(lines, wants):
+                data = argparse_model(regs, argv)
+                ufn, got = after_call(m, o, 'updateFromDict', [data])
+                if got != {'%s %r' % (type(want).__name__, want)}:
+                    bad.append('%s gives %s (expected %r)' % (' '.join([f] + t and ' '.join([f] + t) for f, t in argv), sorted(got), want))
+            chk.verdict(R, label, not bad, 'option %s.%s (%s): %s' % (sname, key, o.cls.name, '; '.join(bad)), where_of(chk, o), kind)
+        except D.Imprecise as e:
+            chk.undecided(R, label, str(e), where_of(chk, o))
+
+
+# ---------------------------------------------------------------------------
+def r165(chk, m, cfg, opts):
+    R = chk.rule('R16.5', 'interpolation on access, interpreted on the configuration heap: reading an option gives its value with '
+                 '%(name)s replaced by the current value of the named option (whatever section it is in) and %% by one percent sign - '
+                 'for strings and for every item of a list; other values come back unchanged', 50)
+    CS = m.cls(CM, 'ConfigSection')
+    fn = m.find_method(CS, '__getitem__')
+    need(fn is not None, 'ConfigSection.__getitem__ not found')
     chk.analysed(fn)
-    ifs = [n for n in fn.node.body if isinstance(n, ast.If)]
-    ok = False
-    detail = ''
-    if len(ifs) == 1:
-        i = ifs[0]
-        t1 = text(i.test)
-        b1 = [text(s) for s in i.body]
-        ok1 = t1 == 'isinstance(value, str)' and b1 == ['return value % wrapper']
-        ok2 = False
-        if i.orelse and isinstance(i.orelse[0], ast.If):
-            j = i.orelse[0]
-            ok2 = 'isinstance(value, Sequence)' in text(j.test) and [text(s) for s in j.body] == ['return [x % wrapper for x in value]'] \
-                and [text(s) for s in j.orelse] == ['return value']
-        ok = ok1 and ok2
-        detail = '%s -> %s' % (t1, b1)
-    calls = [M.call_name(c) for c in M.calls_in(fn.node)]
-    extra = [c for c in calls if c not in ('InterpolationWrapper', 'isinstance')]
-    chk.verdict(R, 'ConfigSection.__getitem__', ok and not extra,
-                '__getitem__ must return `value %% wrapper` for every string (found %s; helper calls %s): a value without a reference '
-                'would keep its %%%% doubled' % (detail, extra), chk.where(fn))
-    w = m.func(CM, 'InterpolationWrapper.__getitem__')
-    chk.analysed(w)
-    src = text(w.node)
-    ok = 'for section in self.inner.values()' in src and 'return section[key]' in src and 'raise KeyError(key)' in src
-    chk.verdict(R, 'InterpolationWrapper looks the name up in every section', ok, 'the wrapper must resolve a name through the sections and raise KeyError otherwise', chk.where(w))
+    c2 = copy.deepcopy(cfg)
+    # make the interpolation visible: a string with a reference and a doubled percent, a list with both, a plain one
+    find_opt(c2, 'general', 'theme').attrs['value'] = 'T%%1'
+    find_opt(c2, 'files', 'directory').attrs['value'] = 'out-%(theme)s-%(renderer)s-100%%'
+    find_opt(c2, 'general', 'extra-templates').attrs['value'] = ['a-%(jobtheme)s' if False else 'a-%(theme)s', 'b%%', 'c']
+    flat = {}
+    for sname, key, o in options_of(c2):
+        flat.setdefault(key, o.attrs['value'])
+
+    def expected(v, depth=0):
+        if isinstance(v, str):
+            def sub(mo):
+                if mo.group(0) == '%%':
+                    return '%'
+                return str(expected(flat[mo.group(1)], depth + 1))
+            return re.sub(r'%%|%\(([^)]+)\)s', sub, v)
+        if isinstance(v, list) and v and isinstance(v[0], str):
+            return [expected(x, depth) for x in v]
+        return v
+    for sname, key, o in options_of(c2):
+        label = 'reading %s[%s]' % (sname, key)
+        sec = c2.attrs['__dict'][sname]
+        try:
+            outs = interp_fn(m, fn, {'self': sec, 'key': key}, cls=CS)
+        except D.Imprecise as e:
+            chk.undecided(R, label, str(e), chk.where(fn))
+            continue
+        got = {('%s %r' % (type(v).__name__, v) if A.is_concrete(v) and not isinstance(v, A.Obj) else show(v)) if kind == 'return' else 'raises %s' % (v,)
+               for kind, s, v in outs}
+        want = expected(o.attrs['value'])
+        chk.decide(R, label, got, {'%s %r' % (type(want).__name__, want)}, 'reading %s.%s (stored %r) gives %s; expected %r'
+                   % (sname, key, o.attrs['value'], sorted(got), want), chk.where(fn))
+    # the current value of the referenced option counts: read, change the referenced option, read again (on the same heap)
+    c3 = copy.deepcopy(cfg)
+    find_opt(c3, 'general', 'theme').attrs['value'] = 'first'
+    find_opt(c3, 'files', 'directory').attrs['value'] = 'out-%(theme)s'
+    try:
+        got = set()
+        for kind, s, v in interp_fn(m, fn, {'self': c3.attrs['__dict']['files'], 'key': 'directory', '__cfg': c3}, cls=CS):
+            if kind != 'return':
+                got.add('first read raises %s' % (v,))
+                continue
+            c4 = s.env['__cfg']
+            find_opt(c4, 'general', 'theme').attrs['value'] = 'second'
+            for kind2, s2, v2 in interp_fn(m, fn, {'self': c4.attrs['__dict']['files'], 'key': 'directory'}, cls=CS):
+                got.add('%r then %r' % (v, v2) if kind2 == 'return' else 'second read raises %s' % (v2,))
+        chk.decide(R, 'a reference follows the current value of the named option', got, {"'out-first' then 'out-second'"},
+                   'directory = out-%%(theme)s read with theme=first, then with theme=second: %s' % sorted(got), chk.where(fn))
+    except D.Imprecise as e:
+        chk.undecided(R, 'a reference follows the current value of the named option', str(e), chk.where(fn))
+    # an unknown reference is an error, not silently kept
+    find_opt(c2, 'general', 'theme').attrs['value'] = '%(no-such-option)s'
+    try:
+        outs = interp_fn(m, fn, {'self': c2.attrs['__dict']['general'], 'key': 'theme'}, cls=CS)
+        got = {'raises %s' % (v,) if kind == 'raise' else 'returns %r' % (v,) for kind, s, v in outs}
+        chk.decide(R, 'a reference to an unknown option', got, {'raises KeyError'}, 'a value with %%(no-such-option)s reads back as %s' % sorted(got), chk.where(fn))
+    except D.Imprecise as e:
+        chk.undecided(R, 'a reference to an unknown option', str(e), chk.where(fn))
 
 
-def r166_7(chk, m):
-    R6 = chk.rule('R16.6', 'keys read from a file reach dictionary options as written (the parser does not change their case), while '
-                  'ordinary option names are matched case-insensitively', 2)
-    R7 = chk.rule('R16.7', 'each configuration file is parsed by its own fresh parser (a later file is applied once, on top of the '
-                  'earlier ones)', 1)
-    fn = m.func(CM, 'ConfigManager.read')
-    chk.analysed(fn)
-    loops = [n for n in M.walk_no_nested(fn.node) if isinstance(n, ast.For) and text(n.iter) == 'filenames']
-    need(len(loops) == 1, 'ConfigManager.read: per-file loop not found')
-    loop = loops[0]
-    created = [n for n in M.walk_no_nested(fn.node) if isinstance(n, ast.Assign) and isinstance(n.value, ast.Call) and text(n.value.func) in ('ConfigParser', 'configparser.ConfigParser', 'RawConfigParser')]
-    need(len(created) == 1, 'ConfigManager.read: parser construction not found')
-    inside = any(x is created[0] for x in ast.walk(loop))
-    chk.verdict(R7, 'one parser per file', inside,
-                'the parser is created once for all files: it accumulates their contents, so list options of an earlier file are '
-                'appended again for every later file', chk.where(fn, created[0]))
-    pv = text(created[0].targets[0])
-    xform = [n for n in M.walk_no_nested(fn.node) if isinstance(n, ast.Assign) and text(n.targets[0]) == '%s.optionxform' % pv]
-    ok = len(xform) == 1 and text(xform[0].value) in ('str', 'lambda option: option', 'lambda x: x')
-    chk.verdict(R6, 'file keys keep their case', ok,
-                'ConfigParser lower-cases option names by default: [counters] MyCounter=3 would be stored as mycounter (the command-line '
-                'route keeps the case); the parser needs optionxform = str', chk.where(fn))
-    # dictionary route gets the key as written; option lookup is case-insensitive
-    sets = [c for c in M.calls_in(fn.node) if M.call_name(c) == 'dictObject.set']
-    ok = len(sets) == 1 and text(sets[0].args[0]) == 'key'
-    look = [text(n.test) for n in M.walk_no_nested(fn.node) if isinstance(n, ast.If) and 'self[section].data' in text(n.test)]
-    ok2 = any('key.lower()' in t for t in look) if xform else any(t.startswith('key in') for t in look)
-    chk.verdict(R6, 'dictionary entries get the key as written', ok and ok2,
-                'unknown keys must be handed to the dictionary option unchanged (%s) and option names matched case-insensitively (%s)'
-                % ([text(s) for s in sets], look), chk.where(fn))
+# ---------------------------------------------------------------------------
+FILES = {
+    'one.ini': [('general', [('theme', 'one'), ('extra-templates', 'a b'), ('XML', 'yes'), ('plugins', 'p')]),
+                ('files', [('Split-Level', '5'), ('no-such-option', 'x')]),
+                ('counters', [('MyCounter', '3'), ('chapter', '1')]),
+                ('nosuchsection', [('k', 'v')])],
+    'two.ini': [('general', [('theme', 'two'), ('plugins', 'q')]),
+                ('counters', [('chapter', '2')])],
+}
 
 
-def r168(chk, m):
-    R = chk.rule('R16.8', 'dictionary options: every entry from a later source is assigned over the current value (command line over '
-                 'files over defaults)', 2)
-    fn = m.func(CM, 'DictOption.updateFromDict')
-    chk.analysed(fn)
-    src = text(fn.node)
-    loops = [n for n in M.walk_no_nested(fn.node) if isinstance(n, ast.For)]
-    ok = len(loops) == 1 and [text(s) for s in loops[0].body] == ['self.set(key, val)'] and text(loops[0].iter) == 'entries'
-    rebinding = [text(n) for n in M.walk_no_nested(fn.node) if isinstance(n, ast.Assign) and text(n.targets[0]) == 'self.value']
-    chk.verdict(R, 'DictOption.updateFromDict', ok and not rebinding,
-                'updateFromDict must call self.set(key, val) for every command-line entry (found loop %s, rebinding %s): merging so '
-                'that existing entries win would let a file override the command line' % ([text(l) for l in loops][:1], rebinding), chk.where(fn))
-    st = m.func(CM, 'DictOption.set')
-    chk.analysed(st)
-    chk.verdict(R, 'DictOption.set assigns the entry', [text(s) for s in st.node.body if not isinstance(s, ast.Expr)] == ['self.value[key] = self.entryFromString(value)'],
-                'DictOption.set must assign self.value[key] = entryFromString(value)', chk.where(st))
+def read_config(m, cfg, names):
+    CMc = m.cls(CM, 'ConfigManager')
+    fn = m.find_method(CMc, 'read')
+    need(fn is not None, 'ConfigManager.read not found')
+    c2 = copy.deepcopy(cfg)
+    outs = interp_fn(m, fn, {'self': c2, 'filenames': names, '__cfg': c2}, files=FILES, cls=CMc)
+    return fn, outs
+
+
+def values_of(cfg, wanted):
+    out = []
+    for sname, key in wanted:
+        out.append('%s.%s=%r' % (sname, key, find_opt(cfg, sname, key).attrs.get('value')))
+    return ' '.join(out)
+
+
+def r166(chk, m, cfg, opts):
+    R = chk.rule('R16.6', 'reading configuration files, interpreted against a scripted parser: values replace the defaults (lists extend), '
+                 'a later file overrides an earlier one and each file is applied exactly once, option names match in any case, keys of '
+                 'dictionary options keep their case, unknown sections and keys are skipped, a missing file is ignored, a single file '
+                 'name is accepted', 4)
+    wanted = [('general', 'theme'), ('general', 'extra-templates'), ('general', 'plugins'), ('general', 'xml'), ('files', 'split-level'), ('counters', 'counters'),
+              ('general', 'renderer')]
+    cases = [('one file', ['one.ini'], "general.theme='one' general.extra-templates=['a', 'b'] general.plugins=['p'] general.xml=True files.split-level=5 "
+              "counters.counters={'MyCounter': 3, 'chapter': 1} general.renderer='HTML5'"),
+             ('two files, the later one wins', ['one.ini', 'two.ini'], "general.theme='two' general.extra-templates=['a', 'b'] general.plugins=['p', 'q'] general.xml=True files.split-level=5 "
+              "counters.counters={'MyCounter': 3, 'chapter': 2} general.renderer='HTML5'"),
+             ('a missing file among the names', ['missing.ini', 'two.ini'], "general.theme='two' general.extra-templates=[] general.plugins=['q'] general.xml=False files.split-level=2 "
+              "counters.counters={'chapter': 2} general.renderer='HTML5'"),
+             ('a single file name', 'two.ini', "general.theme='two' general.extra-templates=[] general.plugins=['q'] general.xml=False files.split-level=2 "
+              "counters.counters={'chapter': 2} general.renderer='HTML5'")]
+    for label, names, want in cases:
+        try:
+            fn, outs = read_config(m, cfg, names)
+            chk.analysed(fn)
+        except D.Imprecise as e:
+            chk.undecided(R, 'read: ' + label, str(e), 'plasTeX/ConfigManager.py')
+            continue
+        got = {values_of(s.env['__cfg'], wanted) if kind == 'return' else 'raises %s' % (v,) for kind, s, v in outs}
+        chk.decide(R, 'read: ' + label, got, {want}, 'after read(%r): %s; expected %s' % (names, sorted(got), want), chk.where(fn), want)
+
+
+def r167(chk, m, cfg, opts):
+    R = chk.rule('R16.7', 'layering of values, interpreted end to end on the configuration heap: defaults, then files, then the command '
+                 'line - an option given on the command line wins over the files, one given only in a file keeps the file value, one '
+                 'given nowhere keeps its default; list options accumulate, dictionary entries are overridden key by key', 1)
+    CMc = m.cls(CM, 'ConfigManager')
+    upd = m.find_method(CMc, 'updateFromDict')
+    reg = m.find_method(CMc, 'registerArgparse')
+    need(upd is not None and reg is not None, 'ConfigManager.updateFromDict / registerArgparse not found')
+    chk.analysed(upd)
+    chk.analysed(reg)
+    try:
+        # the whole configuration registers itself; the registrations feed the argparse model
+        c0 = copy.deepcopy(cfg)
+        outs = interp_fn(m, reg, {'self': c0, 'parser': A.Obj('argparse-parser', {})}, cls=CMc, max_iter=80)
+        regs = None
+        for kind, s, v in outs:
+            need(kind == 'return', 'registerArgparse raises %s' % (v,))
+            regs = s.env.get('__regs', [])
+        need(regs and len(regs) >= len(opts), 'only %d command-line registrations for %d options' % (len(regs or []), len(opts)))
+        flag = lambda sname, key, neg=False: [p for p in find_opt(cfg, sname, key).attrs['options'] if p.startswith('!') == neg][0].lstrip('!')
+        argv = [(flag('general', 'theme'), ['cli']), (flag('general', 'extra-templates'), ['d']), (flag('general', 'copy-theme-extras', True), []),
+                (flag('counters', 'counters'), ['chapter', '9']), (flag('files', 'log'), [])]
+        data = argparse_model(regs, argv)
+        fn, outs = read_config(m, cfg, ['one.ini', 'two.ini'])
+        got = set()
+        wanted = [('general', 'theme'), ('general', 'extra-templates'), ('general', 'xml'), ('files', 'split-level'), ('counters', 'counters'), ('general', 'renderer'),
+                  ('files', 'log'), ('general', 'debug'), ('general', 'copy-theme-extras')]
+        for kind, s, v in outs:
+            if kind != 'return':
+                got.add('read raises %s' % (v,))
+                continue
+            c3 = s.env['__cfg']
+            for kind2, s2, v2 in interp_fn(m, upd, {'self': c3, 'data': data, '__cfg': c3}, cls=CMc, max_iter=80):
+                got.add(values_of(s2.env['__cfg'], wanted) if kind2 == 'return' else 'updateFromDict raises %s' % (v2,))
+        want = ("general.theme='cli' general.extra-templates=['a', 'b', 'd'] general.xml=True files.split-level=5 "
+                "counters.counters={'MyCounter': 3, 'chapter': 9} general.renderer='HTML5' files.log=True general.debug=False general.copy-theme-extras=False")
+        chk.decide(R, 'defaults < files < command line', got, {want}, 'after defaults, read([one.ini, two.ini]) and the command line %s: %s; expected %s'
+                   % (argv, sorted(got), want), chk.where(upd), want)
+    except D.Imprecise as e:
+        chk.undecided(R, 'defaults < files < command line', str(e), chk.where(upd))
